@@ -913,6 +913,19 @@ func main() {
 				gmu.Unlock()
 			}
 		})
+		// (G4) every string of length 0..7 over {'*',':','0','1','6'}: wildcard shorthands ("*:60001",
+		// ":60001", "*") are not addresses either
+		var overlapG4 int64
+		nG4 := allStrings([]byte{'*', ':', '0', '1', '6'}, 7, func(s string, t *tally) {
+			checkAll(s, t)
+			if inA(s) {
+				gmu.Lock()
+				overlapG4++
+				gmu.Unlock()
+			}
+		})
+		r.Set("familyG4_wildcard_alphabet_strings", nG4)
+		distinct += nG4 - overlapG4
 		r.Set("familyG3_zone_alphabet_strings", nG3)
 		distinct += nG3 - overlapG3
 		r.Set("familyG1_ipv6_alphabet_strings", nG1)
@@ -1189,7 +1202,7 @@ func main() {
 	r.Rule(fmt.Sprintf("inputs = (A) every string of length 0..%d over {'1','2','.',':'} and of length 0..%d over {'0','1','6','.',':','x',' '}; "+
 		"(B) a.b.c.d+suffix with [B1] two octet positions over {0,1,9,10,99,100,199,255,256,999,00,01} (others fixed to 12.34.56.78) and [B3] each position over 0..255, each x %d port suffixes (none, boundary ports, 65536, 99999, leading zeros, signs, blanks, empty); "+
 		"[B2] all 65536 plain-decimal ports x %s address texts; [B4] %s; "+
-		"(G) every string of length 0..10 over {':','f','0'} (thorough: plus '1') and the hexadecimal IPv4-mapped / -compatible / NAT64 / 6to4 IPv6 spellings of 8 IPv4 addresses (13 spellings x bare / bracketed / zoned x 7 port suffixes), IPv6 literals with 9 zones that carry dotted fragments shorter than a quad, every string of length 0..8 over {':','%','1','.'}: no dotted quad, must be rejected. "+
+		"(G) every string of length 0..10 over {':','f','0'} (thorough: plus '1') and the hexadecimal IPv4-mapped / -compatible / NAT64 / 6to4 IPv6 spellings of 8 IPv4 addresses (13 spellings x bare / bracketed / zoned x 7 port suffixes), IPv6 literals with 9 zones that carry dotted fragments shorter than a quad, every string of length 0..8 over {':','%','1','.'} and of length 0..7 over {'*',':','0','1','6'}: no dotted quad, must be rejected. "+
 		"(H) the names of the host's network interfaces, its host name and 18 common interface / host / service names x 3 forms x 6 port suffixes: rejected. "+
 		"(C) every string within edit distance %d (insert/delete/substitute over a 12-symbol alphabet incl. '[',']','%%','x',' ') of 6 valid addresses. "+
 		"Each input x 4 roles x {Parse, Set, UnmarshalJSON, MustParse}; String()->Parse and MarshalJSON->UnmarshalJSON for every accepted in-form input. (D) Set and UnmarshalJSON on receivers already holding each of 3 addresses x 6 ports (built with XxxAddrFrom, rule-violating ports included) x 29 texts incl. the receiver's own String(). (F) 15 texts in 6 JSON spellings (\\uXXXX escapes, surrounding white space) through encoding/json. (E) every ordered pair of 23 texts parsed one directly after the other through Parse, Set and UnmarshalJSON (JSON from one reused buffer). "+
